@@ -32,7 +32,7 @@ from vf.core import Violation
 
 ID = "C18"
 LEVEL = "exploration"
-RULE = ("reuse-*: the generated cases of C01-C04, C08-C14, C19, C20 re-run on the sanitised build; reentrant: Hypothesis "
+RULE = ("reuse-*: the generated cases of C01-C14, C16, C17, C19, C20 (24 stages) re-run on the sanitised build; reentrant: Hypothesis "
         "programs (<=15 ops, scripts of <=3 actions for up to 5 callback sites); protocol: every (configuration, hostile value, "
         "k-th call) triple of the stated grid (exhaustive); refcount: every operation of a 34-entry table (exhaustive); refgrid: "
         "every lattice configuration x (lattice values + 28 containers with mortal convertible items), reference counts of the "
@@ -57,7 +57,8 @@ def stale_error():
 REUSE = [("c01", "random", 12), ("c03", "compounds", 12), ("c04", "hist", 10), ("c02", "hist", 12), ("c08", "hist", 12),
          ("c09", "hist", 12), ("c09", "fail", 12), ("c10", "hist", 10), ("c11", "hist", 10), ("c12", "hist", 12),
          ("c13", "hist", 12), ("c14", "objects", 10), ("c14", "defs", 1), ("c19", "inject", 20), ("c20", "hist", 10),
-         ("c06", "hist", 20), ("c07", "hist", 20), ("c16", "hist", 20), ("c17", "cases", 30)]
+         ("c06", "hist", 20), ("c07", "hist", 20), ("c16", "hist", 20), ("c17", "cases", 30),
+         ("c14", "defgrid", 1), ("c09", "optional", 12), ("c09", "failrem", 12), ("c01", "xrandom", 12), ("c05", "hist", 30)]
 
 
 def reuse_stage(modname, stagename, divisor, tier):
